@@ -473,12 +473,12 @@ theorem fieldVals_keys (u : URL) :
 def filterPars (u : URL) (env : StringEnv) : List GoString :=
   match u.params.filter with
   | some f => [gs "filter=" ++ queryEscape f]
-  | none => if u.params.filterLabel ≠ [] then [gs "filter=" ++ queryEscape env.labelBody] else []
+  | none => if u.params.filterLabel ≠ [] then [gs "filter=" ++ queryEscape (rewriteBrace env.labelBody)] else []
 
 def filterVals (u : URL) (env : StringEnv) : GoMap (List GoString) :=
   match u.params.filter with
   | some f => [(sFilter, [f])]
-  | none => if u.params.filterLabel ≠ [] then [(sFilter, [env.labelBody])] else []
+  | none => if u.params.filterLabel ≠ [] then [(sFilter, [rewriteBrace env.labelBody])] else []
 
 theorem filter_enc (v : GoString) : Enc (gs "filter=" ++ queryEscape v) sFilter v := by
   rw [gs_filter]
